@@ -144,20 +144,12 @@ theorem finding_merge_qualified_source :
 
 /-- **Other ways to name a table**: on a coherent connection with a current schema, a statement whose table is named
     through `IDENTIFIER('<name>')` / `IDENTIFIER($var)` does exactly what the statement on the plain name does, at every
-    qualification level (no envelope); so does `write_pandas(conn, df, table, database, schema)` whenever it succeeds. -/
+    qualification level (no envelope); so does `write_pandas(conn, df, table, database, schema)` — result, error code and
+    effect (since the repair /repo fba55e9 its engine errors are translated like everywhere else). -/
 theorem C03_name_forms (c : Cat) (ss : Session) (op : TOp) (v : Nat) (r : TRef) (hs : ss.guard (true, true) = none) :
     ss.guard (Stmt.tabI op r).needs = none ∧ exec c ss (.tabI op r) = exec c ss (.tab op r) ∧
-    ((exec c ss (.writePandas v r)).1 = .ok → exec c ss (.writePandas v r) = exec c ss (.tab (.insert v) r)) := by
-  refine ⟨hs, rfl, ?_⟩
-  simp only [exec, TOp.isCreate]
-  split
-  · rename_i h
-    intro _
-    generalize c.applyT (TOp.insert v) _ _ _ = a at h ⊢
-    obtain ⟨a1, a2⟩ := a
-    simp only at h
-    subst h; rfl
-  · intro h; simp at h
+    exec c ss (.writePandas v r) = exec c ss (.tab (.insert v) r) := by
+  exact ⟨hs, rfl, rfl⟩
 
 /-- `IDENTIFIER('db.schema.table')` is checked as if it were unqualified: on a connection without a current schema the
     fully qualified name fails with 90106 -/
@@ -166,11 +158,11 @@ theorem finding_identifier_function_unqualified :
     (Impl.step w2 2 (.tabI .select (.q3 11 21 31))).1 = .err .noDb ∧
     (Spec.step w2.abs 2 (.tabI .select (.q3 11 21 31))).1 = .rows [7] := by decide
 
-/-- write_pandas on a connection without a current schema is not stopped by 90106 (DuckDB resolves the bare name in
-    `db.main`) and its engine errors reach the caller untranslated -/
+/-- write_pandas on a connection without a current database / schema is not stopped by 90105 / 90106: DuckDB resolves the
+    bare name in its own search path (here: 2003 because `memory.main` has no such table) -/
 theorem finding_write_pandas_bypasses_guards :
     region w2 2 (.writePandas 5 (.q1 31)) = some .writePandasBypassesGuards ∧
-    (Impl.step w2 2 (.writePandas 5 (.q1 31))).1 = .err .raw ∧
+    (Impl.step w2 2 (.writePandas 5 (.q1 31))).1 = .err .catalog ∧
     (Spec.step w2.abs 2 (.writePandas 5 (.q1 31))).1 = .err .noDb ∧
     region w1 0 (.writePandas 5 (.q2 21 31)) = none ∧
     ((Impl.step w1 0 (.writePandas 5 (.q2 21 31))).2.cat.find 11 21 31).map (·.rows) = some [7, 5] := by decide
